@@ -304,10 +304,87 @@ theorem mk_rejects (s e : Int) : (mk? s e = .error "ERR:Value" ↔ e < s) ∧
   · simp only [h, if_false, reduceCtorEq, Except.ok.injEq, true_and]
     intro t ht; subst ht; exact ⟨by unfold WF; simp only; omega, rfl, rfl⟩
 
+/-! ### algebraic laws of the operations (every well-formed operand) -/
+/-- **intersection** does not depend on the order of its operands -/
+theorem intersection_comm (a b : TI) (ha : WF a) (hb : WF b) :
+    a.intersection b = b.intersection a := by
+  unfold intersection
+  rw [isdisjoint_symm a b ha hb, max_comm a.start b.start, min_comm a.stop b.stop]
+
+set_option linter.unnecessarySeqFocus false in
+/-- an interval meets itself in itself -/
+theorem intersection_self (a : TI) (ha : WF a) : a.intersection a = some a := by
+  cases a with | mk s e =>
+  unfold WF at ha; simp only at ha
+  by_cases h : s = e <;> simp [intersection, isdisjoint, isInstant, containsDt, h] <;> omega
+
+/-- the computed intersection is a subset of both operands (the code's own `issubset`) -/
+theorem intersection_issubset (a b c : TI) (ha : WF a) (hb : WF b) (h : a.intersection b = some c) :
+    c.issubset a = true ∧ c.issubset b = true := by
+  obtain ⟨hc, e⟩ := intersection_den a b c ha hb h
+  exact ⟨(issubset_iff c a hc ha).mpr (e ▸ Set.inter_subset_left),
+    (issubset_iff c b hc hb).mpr (e ▸ Set.inter_subset_right)⟩
+
+/-- **union** does not depend on the order of its operands … -/
+theorem union_comm (a b : TI) : a.union b = b.union a := by
+  unfold union; rw [min_comm, max_comm]
+
+/-- … nor on the grouping … -/
+theorem union_assoc (a b c : TI) : (a.union b).union c = a.union (b.union c) := by
+  unfold union; simp only [min_assoc, max_assoc]
+
+/-- … and is idempotent -/
+theorem union_self (a : TI) : a.union a = a := by
+  cases a; simp [union]
+
+/-- `issubset` is reflexive … -/
+theorem issubset_refl (a : TI) (ha : WF a) : a.issubset a = true :=
+  (issubset_iff a a ha ha).mpr (Set.Subset.refl _)
+
+/-- … and transitive -/
+theorem issubset_trans (a b c : TI) (ha : WF a) (hb : WF b) (hc : WF c)
+    (h1 : a.issubset b = true) (h2 : b.issubset c = true) : a.issubset c = true :=
+  (issubset_iff a c ha hc).mpr
+    (Set.Subset.trans ((issubset_iff a b ha hb).mp h1) ((issubset_iff b c hb hc).mp h2))
+
+/-- `elapsed` is never negative, is zero exactly for instants, and grows with `issubset` -/
+theorem elapsed_nonneg (a : TI) (ha : WF a) : 0 ≤ a.elapsed ∧ (a.elapsed = 0 ↔ a.isInstant = true) := by
+  unfold WF at ha; unfold elapsed isInstant
+  refine ⟨by omega, ?_⟩
+  simp only [beq_iff_eq]; omega
+
+theorem elapsed_mono (a b : TI) (ha : WF a) (hb : WF b) (h : a.issubset b = true) :
+    a.elapsed ≤ b.elapsed := by
+  cases a with | mk as ae => cases b with | mk bs be =>
+  unfold WF at ha hb; simp only at ha hb
+  unfold issubset at h
+  by_cases hai : as = ae <;> by_cases hbi : bs = be <;>
+    simp [isInstant, containsDt, hai, hbi, elapsed] at h ⊢ <;> omega
+
+/-- the hull is at least as long as either operand -/
+theorem elapsed_union_ge (a b : TI) : a.elapsed ≤ (a.union b).elapsed ∧ b.elapsed ≤ (a.union b).elapsed := by
+  unfold elapsed union; simp only; omega
+
+/-- a disjoint pair never shares an instant with the same third interval's intersection: disjointness is
+    inherited by subsets -/
+theorem isdisjoint_of_subset (a b c : TI) (ha : WF a) (hb : WF b) (hc : WF c)
+    (h1 : a.issubset b = true) (h2 : b.isdisjoint c = true) : a.isdisjoint c = true :=
+  (isdisjoint_iff a c ha hc).mpr
+    (Set.disjoint_of_subset_left ((issubset_iff a b ha hb).mp h1) ((isdisjoint_iff b c hb hc).mp h2))
+
+/-- `copy` is equal to the original -/
+theorem copy_eq (a : TI) : a.copy.eq a = true := by
+  cases a; simp [copy, eq]
+
 /-! ### non-vacuity: the hypotheses are met by concrete, non-trivial intervals -/
 example : WF ⟨0, 2⟩ ∧ WF ⟨2, 2⟩ ∧ (⟨2, 2⟩ : TI).issubset ⟨0, 2⟩ = false ∧
     (⟨0, 2⟩ : TI).isdisjoint ⟨2, 2⟩ = true ∧ (⟨0, 2⟩ : TI).intersection ⟨2, 4⟩ = none ∧
     (⟨0, 3⟩ : TI).intersection ⟨2, 4⟩ = some ⟨2, 3⟩ := by
   refine ⟨by decide, by decide, by decide, by decide, by decide, by decide⟩
+
+example : (⟨0, 3⟩ : TI).intersection ⟨2, 4⟩ = (⟨2, 4⟩ : TI).intersection ⟨0, 3⟩ ∧
+    (⟨2, 3⟩ : TI).issubset ⟨0, 3⟩ = true ∧ (⟨0, 3⟩ : TI).issubset ⟨0, 5⟩ = true ∧
+    (⟨0, 3⟩ : TI).isdisjoint ⟨3, 3⟩ = true := by
+  refine ⟨by decide, by decide, by decide, by decide⟩
 
 end GV.TI
